@@ -106,6 +106,7 @@ fn main() {
     let mut rounds = 1usize;
     let mut yseed = 1u64;
     let mut probes = true;
+    let mut baseline_last = false;
     let mut i = 3;
     while i < args.len() {
         match args[i].as_str() {
@@ -113,6 +114,7 @@ fn main() {
             "--rounds" => { rounds = args[i + 1].parse().unwrap(); i += 2; }
             "--yield-seed" => { yseed = args[i + 1].parse().unwrap(); i += 2; }
             "--probes" => { probes = args[i + 1] != "0"; i += 2; }
+            "--baseline-last" => { baseline_last = true; i += 1; }
             _ => { eprintln!("unknown flag {}", args[i]); std::process::exit(2); }
         }
     }
@@ -121,7 +123,7 @@ fn main() {
     let logf = std::fs::File::create(&args[2]).expect("create log");
     let mut log = BufWriter::with_capacity(1 << 16, logf);
     if threads > 0 {
-        par::run(&lines, &mut log, threads, rounds, yseed, probes);
+        par::run(&lines, &mut log, threads, rounds, yseed, probes, baseline_last);
         log.flush().unwrap();
         return;
     }
